@@ -109,6 +109,17 @@ def dtypes_of(x):
     return None
 
 
+def tap_array(x):
+    """explicit side record for a result that is NOT geometry although it is a plain ndarray (coordinates returned by nonzero, positions
+    returned by argmax / argmin): C19 compares its element dtype across the two configurations"""
+    if TAP is not None:
+        if isinstance(x, (tuple, list)):
+            TAP.append(tuple(("A", str(_np.asarray(i).dtype)) for i in x))
+        else:
+            TAP.append(("A", str(_np.asarray(x).dtype)))
+    return x
+
+
 def observe(f, dt=False):
     """run f and normalise its result; an exception anywhere -- in the call or while the result is
     read back (lazy views fail late) -- is the observation ('X', type)"""
